@@ -31,6 +31,9 @@ fn main() {
     mc_core::subject::install_quiet_panic_hook();
     let cli = parse_cli();
     let t0 = std::time::Instant::now();
+    if cli.cmd != "replay" && mc_core::isolate::worker_spec().is_none() {
+        mc_core::abortguard::install(cli.out.clone(), &cli.cmd, "cnf", cli.tier.name());
+    }
     let tier = cli.tier;
     if cli.cmd == "replay" {
         let text = std::fs::read_to_string(cli.file.as_ref().expect("replay needs a file")).unwrap();
@@ -117,7 +120,10 @@ fn main() {
                 let subs = subjects::subjects(kind, &lits_for(tier), &flags_for(kind, tier));
                 let inp = gen::inputs(kind, tier);
                 sample_docs(&mut report, kind, &inp.sequences);
-                groups.push((kind.to_string(), subs, inp.all()));
+                let mut docs = inp.all();
+                // extreme decimal numbers at every number position (the C06 boundary documents)
+                docs.extend(c06::cases(kind, tier).into_iter().map(|c| generic::Doc::new("boundary", c.doc)));
+                groups.push((kind.to_string(), subs, generic::dedup_docs(docs)));
             }
             generic::c05_isolated(&groups, tier.pick(40.0, 1500.0), &mut report);
             report.traces = report.evaluations;
